@@ -23,8 +23,11 @@ pub enum Phase {
     DuringStore,
     AfterWarm,
     AfterCold,
+    /// as DuringStore, but the first caller has given up waiting (its future is dropped) - the write itself is
+    /// still in flight on the node
+    DuringStoreAbandoned,
 }
-pub const PHASES: [Phase; 5] = [Phase::SameTick, Phase::DuringLookup, Phase::DuringStore, Phase::AfterWarm, Phase::AfterCold];
+pub const PHASES: [Phase; 6] = [Phase::SameTick, Phase::DuringLookup, Phase::DuringStore, Phase::AfterWarm, Phase::AfterCold, Phase::DuringStoreAbandoned];
 
 #[derive(Clone, Copy, Debug, PartialEq, Eq)]
 pub struct Rel {
@@ -121,7 +124,7 @@ pub fn overlap_scenario(r: &mut Report, c: &Case) {
         Phase::DuringLookup => {
             w.run_for(30 * MS);
         }
-        Phase::DuringStore => {
+        Phase::DuringStore | Phase::DuringStoreAbandoned => {
             while !put_tids.lock().unwrap_or_else(|e| e.into_inner()).1 && w.now() < end {
                 w.step_until(end);
                 t1.poll(w.now());
@@ -145,6 +148,12 @@ pub fn overlap_scenario(r: &mut Report, c: &Case) {
     };
     t1.poll(w.now());
     let first_done_before = t1.done();
+    let abandoned = c.phase == Phase::DuringStoreAbandoned && !first_done_before;
+    if abandoned {
+        // the caller walks away: the future (and with it the receiving end of the result channel) is dropped
+        t1 = Task::new(w.now(), async { Ok(Id::from([0u8; 20])) });
+        r.count("first_caller_gave_up_during_the_store_phase");
+    }
     let a2 = x.adht.clone();
     let item2 = i2.clone();
     let mut t2: Task<Result<Id, PutMutableError>> = Task::new(w.now(), async move { a2.put_mutable(item2, cas).await });
@@ -168,7 +177,7 @@ pub fn overlap_scenario(r: &mut Report, c: &Case) {
             fail(r, "control/interference", "puts for another salt or key affected each other");
         }
         r.count("controls");
-    } else if in_flight && !first_done_before && c.rel.same_item && c.rel.cas == 2 && c.phase == Phase::DuringStore {
+    } else if in_flight && !first_done_before && c.rel.same_item && c.rel.cas == 2 && matches!(c.phase, Phase::DuringStore | Phase::DuringStoreAbandoned) {
         // identical item, but with a cas that matches nothing, after the first call's requests went out: the storing
         // nodes hold the item by now and answer 301 to the repeated write - their verdict, not a local rule
         r.count("identical_item_with_foreign_cas_during_store_phase_not_judged");
@@ -188,7 +197,7 @@ pub fn overlap_scenario(r: &mut Report, c: &Case) {
             let rule = if c.rel.same_item { "identical-item" } else if c.rel.seq < 0 { "lower-seq" } else if c.rel.cas == 0 { "different-item-no-cas" } else if c.rel.cas == 1 { "cas-matches-in-flight-seq" } else { "cas-mismatch" };
             fail(r, &format!("in-flight-rule/{rule}/got-{s_r2}"), &format!("second put_mutable while the first is in flight: expected {want2}, got {s_r2}"));
         }
-        if s_r1 != "Ok" {
+        if s_r1 != "Ok" && !abandoned {
             fail(r, &format!("in-flight-rule/first-call/got-{s_r1}"), "the first put_mutable did not succeed");
         }
         // superseding write with a higher seq: the servers end with the second item
@@ -238,7 +247,9 @@ pub fn overlap_scenario(r: &mut Report, c: &Case) {
 }
 
 /// Majority rule with scripted storing nodes: n <= 5, every split of 301 / 302 / ack.
-/// kind: 0 put_mutable (with cas), 1 put_immutable, 2 announce_peer, 3 announce_signed_peer, 4 put_mutable without cas
+/// kind: 0 put_mutable (with cas), 1 put_immutable, 2 announce_peer, 3 announce_signed_peer, 4 put_mutable without cas,
+/// 5 put_mutable with cas where the second half of the contacted nodes are EXTRA storing nodes (handed to the put
+/// by the caller with tokens of an earlier lookup; the put's own lookup does not find them)
 pub fn majority_scenario(r: &mut Report, seed: u64, fates: &[u8], kind: u8) {
     r.eval();
     let mut rng = Rng::new(seed);
@@ -249,6 +260,9 @@ pub fn majority_scenario(r: &mut Report, seed: u64, fates: &[u8], kind: u8) {
     let socks: Vec<SockId> = ends.iter().map(|e| w.raw(e.1)).collect();
     let index: HashMap<SockId, usize> = socks.iter().enumerate().map(|(i, s)| (*s, i)).collect();
     let (ends2, fates2) = (ends.clone(), fates.to_vec());
+    let signer = SigningKey::from_bytes(&rng.array::<32>());
+    let put_target = crate::sha1::mutable_target(&signer.verifying_key().to_bytes(), None);
+    let n_closest = if kind == 5 { (n + 1) / 2 } else { n };
     w.set_responder(Some(Box::new(move |w, sock, d| {
         let Some(q) = Krpc::parse(&d.bytes) else { return true };
         if q.y != b'q' {
@@ -264,8 +278,11 @@ pub fn majority_scenario(r: &mut Report, seed: u64, fates: &[u8], kind: u8) {
                 _ => error(&q.t, 302, &format!("sequence number less than current [{}]", i * 7)).encode(),
             }
         } else {
-            let mut rd = vec![("id", B::bytes(&me)), ("nodes", B::Bytes(nodes_bytes(&ends2)))];
-            if !q.is_query("find_node") && !q.is_query("ping") {
+            // kind 5: lookups of the put's own target neither list the extra nodes nor get a token from them
+            let for_put_target = kind == 5 && q.target() == Some(put_target);
+            let listed: Vec<([u8; 20], SocketAddrV4)> = if for_put_target { ends2.iter().take(n_closest).copied().collect() } else { ends2.clone() };
+            let mut rd = vec![("id", B::bytes(&me)), ("nodes", B::Bytes(nodes_bytes(&listed)))];
+            if !q.is_query("find_node") && !q.is_query("ping") && !(for_put_target && i >= n_closest) {
                 rd.push(("token", B::bytes(b"tokn")));
             }
             response(&q.t, B::dict(rd), Some(&d.from), Some(&VERSION_RS6)).encode()
@@ -276,11 +293,20 @@ pub fn majority_scenario(r: &mut Report, seed: u64, fates: &[u8], kind: u8) {
     let boots: Vec<SocketAddrV4> = ends.iter().map(|e| e.1).collect();
     let x = w.spawn(NodeSpec::client(Ipv4Addr::new(10, 7, 9, 9), &boots)).expect("x");
     w.block_on(x.adht.bootstrapped(), 60 * SEC);
-    let signer = SigningKey::from_bytes(&rng.array::<32>());
     let item = MutableItem::new(&signer, b"v", 3, None);
     let ih = Id::from(rng.array::<20>());
+    // kind 5: the extra storing nodes come from a lookup of another target
+    let mut extras: Vec<dht::Node> = vec![];
+    if kind == 5 {
+        let a = x.adht.clone();
+        let other = Id::from(rng.array::<20>());
+        if let Some(nodes) = w.block_on(async move { a.get_closest_nodes(other).await }, 60 * SEC) {
+            extras = nodes.iter().filter(|nd| ends.iter().skip(n_closest).any(|e| e.1 == nd.address())).cloned().collect();
+        }
+        r.count("majority_splits_with_extra_storing_nodes");
+    }
     let request = match kind {
-        0 => PutRequestSpecific::PutMutable(PutMutableRequestArguments::from(item, Some(2))),
+        0 | 5 => PutRequestSpecific::PutMutable(PutMutableRequestArguments::from(item, Some(2))),
         4 => PutRequestSpecific::PutMutable(PutMutableRequestArguments::from(item, None)),
         1 => {
             let v = rng.blob(3, 30);
@@ -293,7 +319,7 @@ pub fn majority_scenario(r: &mut Report, seed: u64, fates: &[u8], kind: u8) {
             PutRequestSpecific::AnnounceSignedPeer(dht::verif::AnnounceSignedPeerRequestArguments { info_hash: ih, t: ts, k: sg.k, sig: sg.sig })
         }
     };
-    let rx = put_raw(&x.dht, request, None);
+    let rx = put_raw(&x.dht, request, if extras.is_empty() { None } else { Some(extras.into_boxed_slice()) });
     let res = w.block_on(async move { rx.recv_async().await }, 120 * SEC);
     let (acks, e301, e302) = (fates.iter().filter(|f| **f == 0).count(), fates.iter().filter(|f| **f == 1).count(), fates.iter().filter(|f| **f == 2).count());
     let half = n / 2 + 1;
@@ -305,7 +331,7 @@ pub fn majority_scenario(r: &mut Report, seed: u64, fates: &[u8], kind: u8) {
         other => format!("{other:?}"),
     };
     let detail = json!({"acks": acks, "e301": e301, "e302": e302, "half": half, "result": got});
-    if kind != 0 && kind != 4 {
+    if kind != 0 && kind != 4 && kind != 5 {
         // immutable and announce puts never end in a concurrency error, and one ack makes them succeed
         if got == "CasFailed" || got == "NotMostRecent" || got.contains("Concurrency") {
             r.violation("majority/concurrency-error-for-non-mutable-put", "CasFailed / NotMostRecent produced for an immutable or announce put", case.clone(), detail.clone());
@@ -472,6 +498,10 @@ pub fn run(a: &Args) -> Report {
             let seed4 = mix(seed, 4);
             super::guarded(&mut r, json!({"class":"majority","seed":seed4.to_string(),"fates":fates,"kind":4}), |r| majority_scenario(r, seed4, &fates, 4));
             r.count("majority_splits_mutable_without_cas");
+            if n >= 2 {
+                let seed5 = mix(seed, 5);
+                super::guarded(&mut r, json!({"class":"majority","seed":seed5.to_string(),"fates":fates,"kind":5}), |r| majority_scenario(r, seed5, &fates, 5));
+            }
             // the same split for one of the three non-mutable kinds
             let kind = 1 + (code % 3) as u8;
             let seed2 = mix(seed, kind as u64);
